@@ -568,6 +568,46 @@ def _big_task(task):
     return t
 
 
+def _late_patched_socket_class(t: Tally):
+    """A process that replaces socket.socket AFTER the library was imported by a class of its own that wraps the system's sockets (the green
+    socket of a cooperative scheduler): its sockets are sockets (isinstance(s, socket.socket) holds in that process) and are framed as such."""
+    import socket as _socket
+    import space_packet_parser.packets as real
+    pal = framing.palette_packets()
+    orig = _socket.socket
+
+    class GreenSocket:
+        def __init__(self, data, step):
+            self._d, self._o, self._step = data, 0, step
+
+        def recv(self, n, flags=0):
+            k = min(n, self._step, len(self._d) - self._o)
+            out = self._d[self._o:self._o + k]
+            self._o += k
+            return out
+    for seq in ((0,), (1, 2), (2, 0, 1)):
+        for k in (0, 3):
+            expected = [pal[i] for i in seq]
+            stream = framing.build_stream(expected, k)
+            for r, step in ((None, 4096), (5, 3), (7, 1)):
+                t.evals += 1
+                t.traces += 1
+                _socket.socket = GreenSocket
+                try:
+                    g = real.ccsds_generator(GreenSocket(stream, step), buffer_read_size_bytes=r, skip_header_bytes=k)
+                    got = []
+                    for _ in expected:
+                        got.append(bytes(next(g)))
+                    bad = None if got == expected else {"got": [x.hex() for x in got]}
+                except Exception as e:  # noqa: BLE001
+                    bad = {"end": f"raised {type(e).__name__}: {str(e)[:80]}"}
+                finally:
+                    _socket.socket = orig
+                if bad:
+                    t.violation({"kind": "framing-mismatch", "source": "socket-of-a-class-installed-after-import"},
+                                {"seq": list(seq), "k": k, "r": r, "source": "late-patched-socket", "step": step}, expected=[p.hex() for p in expected], observed=bad)
+
+
 def plan(tier, work):
     pal = framing.palette_packets()
     max_len = 3 if tier == "quick" else 4
@@ -602,6 +642,7 @@ def run(ctx):
     from mc.kernel import chunked
     tally.merge(fan_out(_long_sized_task, [{"seqs": ch, "ks": [0, 1, 2, 3, 4, 7], "work": ctx.work} for ch in chunked(long_seqs, 32)], jobs=ctx.jobs, seed=ctx.seed))
     max_len = 3 if ctx.quick else 4
+    _late_patched_socket_class(tally)
     coverage = {
         "states": tally.states,
         "transitions": tally.transitions,
